@@ -68,8 +68,8 @@ STM(t) == Can("sTM") /\ \E k \in Lits : Put(t, FromTm(<<"exp", Lit(k)>>), [op |-
 STAA(t) == Can("sTAA") /\ \E k \in Lits : Put(t, FromTaa(Lit(k)), [op |-> "sTAA", k |-> k])
 SetE(t) == Can("set") /\ \E i \in {0, 4}, x \in Scalars :
               Put(t, FromTaa(<<"upd", obj[t].taa, i, x>>), [op |-> "set", i |-> i, x |-> x])
-SetItem(t) == Can("setitem") /\ \E i \in {1, 3, 5}, x \in Scalars :
-              Put(t, FromTaa(<<"upd", obj[t].taa, i, x>>), [op |-> "setitem", i |-> i, x |-> x])
+SetItem(t) == Can("setitem") /\ \E i \in {1, 3, 5}, x \in Scalars, ng \in {0, 1} :      \* ng = 1: the same element addressed
+              Put(t, FromTaa(<<"upd", obj[t].taa, i, x>>), [op |-> "setitem", i |-> i, x |-> x, neg |-> ng])   \* from the end (i - 6)
 SetSlice(t) == Can("setslice") /\ \E lo \in {0, 3}, vf \in {"list", "col"}, k \in Lits :
               Put(t, FromTaa(<<"upds", obj[t].taa, lo, k>>), [op |-> "setslice", lo |-> lo, vf |-> vf, k |-> k])
 SetQuat(t) == Can("setQuat") /\ \E k \in Lits :
